@@ -5,4 +5,3 @@ import Eliot.Properties.C13
 #print axioms Sys.C13.success_stages_serialized
 #print axioms Sys.C13.serializer_failure_contained
 #print axioms Sys.C13.per_kind_serializer
-#print axioms Sys.C13.skeleton_E9
